@@ -38,6 +38,8 @@ func run(seed int64, n int, dir string, _ []string) {
 	dml.KnownReplaceWitness(g, o, root)
 	// corpus: every statement kind inside IF / nested IF / WHILE / function body / PREPARE-EXECUTE, for every seed
 	dml.NestedCorpus(g, o, root)
+	// corpus: the STDIN table as the target of every statement kind, for every seed
+	dml.StdinCorpus(g, o, root)
 
 	stmts := 0
 	for seq := 0; stmts < n; seq++ {
@@ -57,6 +59,7 @@ func run(seed int64, n int, dir string, _ []string) {
 				continue
 			}
 			out := r.Exec(st, 0)
+			r.AfterStdin(out)
 			stmts++
 			res := "ok"
 			if out.Err != nil {
